@@ -1,6 +1,7 @@
 import AsynqModel.Sexp
 import AsynqModel.Drv.Futures
 import AsynqModel.Drv.Core
+import AsynqModel.Drv.Tools
 open AsynqModel
 
 /-- dispatch one case to the model of its mode -/
@@ -8,6 +9,7 @@ def handleCase (mode : String) (id : Nat) (hdr body : List Sexp) : String :=
   match mode with
   | "futures" => Drv.Futures.handle id hdr body
   | "core" => Drv.Core.handle id hdr body
+  | "tools" => Drv.Tools.handle id hdr body
   | "core20" => Drv.Core.handle20 id hdr body
   | "chain" =>
     -- a chain of n tasks, far deeper than the interpreter's recursion limit: value n, one flush iff the leaf awaits an item
